@@ -60,6 +60,7 @@ import (
 )
 
 type c03JWK struct {
+	rawKey interface{}
 	id     string
 	key    jwk.Key
 	raw    string // %T of the raw key
@@ -153,6 +154,51 @@ func (e *c03Env) keyFiles() []string {
 	}
 	sort.Strings(r)
 	return r
+}
+
+// CALLER-SUPPLIED private material: what in-node callers may hand to the signing functions by mistake (a key pair in
+// a jwk header instead of the public key). Only key types the node itself creates or holds (ECDSA, RSA, Ed25519).
+func (e *c03Env) callerCanaries(label string, priv interface{}) {
+	add := func(kind, v string) {
+		if len(v) >= 16 {
+			e.canaries = append(e.canaries, c03Canary{"caller/" + label, kind, v})
+		}
+	}
+	encs := func(kind string, b []byte) {
+		add(kind+":hex", hex.EncodeToString(b))
+		add(kind+":HEX", strings.ToUpper(hex.EncodeToString(b)))
+		add(kind+":b64", base64.StdEncoding.EncodeToString(b))
+		add(kind+":b64raw", base64.RawStdEncoding.EncodeToString(b))
+		add(kind+":b64url", base64.URLEncoding.EncodeToString(b))
+		add(kind+":b64urlraw", base64.RawURLEncoding.EncodeToString(b))
+	}
+	num := func(kind string, n *big.Int) {
+		if n != nil {
+			encs(kind, n.Bytes())
+			add(kind+":dec", n.String())
+		}
+	}
+	switch pk := priv.(type) {
+	case *ecdsa.PrivateKey:
+		num("scalar", pk.D)
+		encs("scalar-fixed", pk.D.FillBytes(make([]byte, (pk.Curve.Params().BitSize+7)/8)))
+	case *rsa.PrivateKey:
+		num("rsa-D", pk.D)
+		for i, p := range pk.Primes {
+			num("rsa-prime"+strconv.Itoa(i), p)
+		}
+		num("rsa-Dp", pk.Precomputed.Dp)
+		num("rsa-Dq", pk.Precomputed.Dq)
+		num("rsa-Qinv", pk.Precomputed.Qinv)
+	case ed25519.PrivateKey:
+		encs("ed25519-seed", pk.Seed())
+		encs("ed25519-private", []byte(pk))
+		var parts []string
+		for _, x := range pk.Seed() {
+			parts = append(parts, strconv.Itoa(int(x)))
+		}
+		add("ed25519-seed:slice", strings.Join(parts, " "))
+	}
 }
 
 // the harness is the attacker's oracle: it reads the key files to learn the secrets it then searches for
@@ -308,7 +354,7 @@ func c03Err(err error) string {
 		return "err:unsupported-key"
 	case strings.Contains(err.Error(), "kid header not found"):
 		return "err:no-kid-header"
-	case strings.Contains(err.Error(), "refusing to sign JWS with private key in JWK header"):
+	case strings.Contains(err.Error(), "refusing to sign JWS with private key in JWK header"), strings.Contains(err.Error(), "refusing to sign JWT with private key in JWK header"):
 		return "err:private-jwk-refused"
 	case strings.Contains(err.Error(), "unable to set header"):
 		return "err:set-header"
@@ -386,7 +432,20 @@ func (e *c03Env) drainAudit() string {
 		if s, err := en.String(); err == nil {
 			e.sink("audit", s)
 		}
-		parts = append(parts, fmt.Sprintf("%v:%s", en.Data["event"], en.Message))
+		rec := fmt.Sprintf("%v:%s", en.Data["event"], en.Message)
+		var extra []string
+		for k := range en.Data {
+			switch k {
+			case "actor", "event", "module", "operation":
+			default:
+				extra = append(extra, k)
+			}
+		}
+		if len(extra) > 0 { // an audit record carries the four standard fields only
+			sort.Strings(extra)
+			rec += "+UNEXPECTED-FIELDS:" + strings.Join(extra, ",")
+		}
+		parts = append(parts, rec)
 	}
 	e.auditCap.Hook.Reset()
 	return " audit=[" + strings.Join(parts, ";") + "]"
@@ -402,6 +461,22 @@ func (e *c03Env) exec(op map[string]interface{}) (line string) {
 		switch op["op"] {
 		case "new", "link", "delete", "migrate", "sign", "resolve", "decrypt", "decryptjwe":
 			if !strings.HasSuffix(line, " skipped") && !strings.Contains(line, "encrypt-failed") {
+				line += a
+			}
+		case "signjws", "signjwt":
+			// the record is worded with %s of the kid header: compared when that value is a string or absent
+			// (package function) or always (key store / in-memory signer set it to the requested kid)
+			modelled := op["via"] != "pkg"
+			if !modelled {
+				modelled = true
+				hl, _ := op["headers"].([]interface{})
+				for _, h := range hl {
+					if m, _ := h.(map[string]interface{}); m != nil && m["n"] == "kid" && m["k"] != "str" {
+						modelled = false
+					}
+				}
+			}
+			if modelled || strings.Contains(a, "UNEXPECTED-FIELDS") {
 				line += a
 			}
 		}
@@ -770,7 +845,7 @@ func c03MakeJWKs(t *testing.T) []c03JWK {
 		_, hasD := mm["d"]
 		_, hasK := mm["k"]
 		tp, _ := k.Thumbprint(crypto.SHA256)
-		out = append(out, c03JWK{id: r.id, key: k, raw: fmt.Sprintf("%T", raw), secret: hasD || hasK, thumb: hex.EncodeToString(tp)})
+		out = append(out, c03JWK{rawKey: r.raw, id: r.id, key: k, raw: fmt.Sprintf("%T", raw), secret: hasD || hasK, thumb: hex.EncodeToString(tp)})
 	}
 	return out
 }
@@ -914,6 +989,10 @@ func TestVerifC03(t *testing.T) {
 	memKey, _ := jwk.FromRaw(e.pkgKey)
 	_ = memKey.Set(jwk.KeyIDKey, "mem#1")
 	e.mem = MemoryJWTSigner{Key: memKey}
+	for _, j := range e.jwks {
+		e.callerCanaries(j.id, j.rawKey)
+	}
+	e.callerCanaries("pkgKey", e.pkgKey)
 	// capture everything that is logged (standard logger at trace level, audit logger)
 	logrus.SetLevel(logrus.TraceLevel)
 	logrus.StandardLogger().AddHook(c03Hook{e})
